@@ -20,7 +20,7 @@ import (
 //     a clean end of input would end the chain) it returns an error (C11);
 //   - Decode / CheckIntegrity through a bytes.Reader leave it exactly behind the first frame (C10).
 func readerKindsOracle(res *RunResult, max int) {
-	done := 0
+	done, singles := 0, 0
 	seen := map[string]bool{}
 	for i, c := range res.Stats.cases {
 		if done >= max {
@@ -35,6 +35,13 @@ func readerKindsOracle(res *RunResult, max int) {
 			continue
 		}
 		seen[string(dc.data)] = true
+		// mostly streams of two or more files (the sets also hold single files through DecodeChained)
+		if fl, ok := frameLen(dc.data); ok && fl >= len(dc.data) {
+			if singles >= max/4 {
+				continue
+			}
+			singles++
+		}
 		done++
 		data := dc.data
 		opts := parseOpts(dc.opts)
@@ -106,6 +113,33 @@ func readerKindsOracle(res *RunResult, max int) {
 					addViolation(res, c, got, fmt.Sprintf("%s through a bytes.Reader: %s, expected %s (the reader left exactly behind the first frame)", e, got, want))
 				}
 			}
+			// a reader that can seek and is not at its start: every file of the chain through Decode and
+			// CheckIntegrity on one bytes.Reader, each call beginning where the previous one stopped
+			for pass := 0; pass < 2; pass++ {
+				pass := pass
+				got := guarded(func() string {
+					fit.VerifSetAccumulators(parseAccuState(dc.accu))
+					br := bytes.NewReader(data)
+					var marks []string
+					for k := range bounds {
+						var err error
+						if (k+pass)%2 == 0 {
+							err = fit.CheckIntegrity(br, false)
+						} else {
+							_, err = fit.Decode(br, opts...)
+						}
+						marks = append(marks, fmt.Sprintf("%s@%d", tag(err), len(data)-br.Len()))
+					}
+					return strings.Join(marks, " ")
+				})
+				var wantMarks []string
+				for _, b := range bounds {
+					wantMarks = append(wantMarks, fmt.Sprintf("ok@%d", b))
+				}
+				if want := strings.Join(wantMarks, " "); got != want {
+					addViolation(res, c, got, fmt.Sprintf("CheckIntegrity / Decode file after file on one bytes.Reader: %s, expected %s", got, want))
+				}
+			}
 			// the entry points that stop early: through a bytes.Reader (which can seek) they succeed on a
 			// valid first file and never move the reader beyond its frame
 			for _, e := range []string{"DecodeHeader", "DecodeHeaderAndFileID", "CheckIntegrity(headerOnly)"} {
@@ -133,4 +167,59 @@ func readerKindsOracle(res *RunResult, max int) {
 		}
 	}
 	res.Notes = append(res.Notes, fmt.Sprintf("%d chained streams also through bytes.Reader / bufio.Reader / bytes.Buffer / strings.Reader / LimitedReader, with read faults on every file boundary behind a bufio.Reader", done))
+}
+
+// integrityReaderKinds: files that Decode accepts, followed by more bytes (the start of another file,
+// junk, a whole second copy), through CheckIntegrity and Decode behind in-memory readers that know
+// their length and can seek (bytes.Reader, bytes.Buffer, strings.Reader): the verdict is the one
+// for the file alone and the reader is left exactly behind the frame (C04: a file Decode accepts
+// passes CheckIntegrity, whatever the reader).
+func integrityReaderKinds(res *RunResult, files [][]byte, label []string) {
+	n := 0
+	for fi, f := range files {
+		fl, ok := frameLen(f)
+		if !ok || fl != len(f) {
+			continue
+		}
+		n++
+		tails := [][]byte{nil, f[:9], {0x0E, 0x10, 0x00}, {0xA7, 0x3C, 0x55, 0x01, 0xFE}, f}
+		for ti, tail := range tails {
+			data := append(append([]byte{}, f...), tail...)
+			for name, mk := range map[string]func() interface {
+				io.Reader
+				Len() int
+			}{
+				"bytes.Reader": func() interface {
+					io.Reader
+					Len() int
+				} { return bytes.NewReader(data) },
+				"bytes.Buffer": func() interface {
+					io.Reader
+					Len() int
+				} { return bytes.NewBuffer(append([]byte{}, data...)) },
+				"strings.Reader": func() interface {
+					io.Reader
+					Len() int
+				} { return strings.NewReader(string(data)) },
+			} {
+				for _, e := range []string{"CheckIntegrity", "Decode"} {
+					e, mk := e, mk
+					got := guarded(func() string {
+						r := mk()
+						var err error
+						if e == "Decode" {
+							_, err = fit.Decode(r)
+						} else {
+							err = fit.CheckIntegrity(r, false)
+						}
+						return fmt.Sprintf("%s %d", tag(err), len(data)-r.Len())
+					})
+					if want := fmt.Sprintf("ok %d", fl); got != want {
+						addViolation(res, label[fi], got, fmt.Sprintf("%s of an accepted file followed by %d more bytes (tail %d) through a %s: %s, expected %s", e, len(tail), ti, name, got, want))
+					}
+				}
+			}
+		}
+	}
+	res.Notes = append(res.Notes, fmt.Sprintf("%d accepted files, each followed by 5 kinds of further bytes, through CheckIntegrity and Decode behind bytes.Reader / bytes.Buffer / strings.Reader", n))
 }
